@@ -4,6 +4,7 @@
 From Coq Require Import Reals Lra List.
 From PV Require Import Num PyBase Model.Component Model.Mixture Model.Permeance Model.Solver Model.Curve
   Lemmas.Composition Lemmas.Permeance Lemmas.Curve.
+From PV Require Import Model.Process Lemmas.PersistCurve Lemmas.CurveRound.
 Import ListNotations.
 Local Open Scope R_scope.
 
@@ -44,6 +45,23 @@ Theorem C09_unit_conversion_value (k : Component ROps) v u : 0 < mw k -> 0 <= v 
   convert ROps (RP v u) KG (Some k) = Ok (RP (cval (mw k) v u KG) KG).
 Proof. intros A B C. exact (convert_ok k v u KG A B C I). Qed.
 
+(* a curve built from permeances (kg units after conversion) reports fluxes = permeance x feed partial pressure ... *)
+Theorem C09_from_permeances PP (m : Mixture ROps) T xs Tp pp Ps pfs :
+  Forall wf_pair Ps -> length Ps = length xs -> mapM (fun x => PP T x NRTL) xs = Ok pfs ->
+  mk_curve ROps PP m (Build_CurveIn ROps T xs None Tp pp (Some Ps))
+  = Ok (Build_Curve ROps T xs (fluxes_of Ps pfs) Tp pp Ps).
+Proof. exact (curve_from_permeances PP m T xs Tp pp Ps pfs). Qed.
+
+(* ... and re-inverting those fluxes returns the original permeances (any number of points) *)
+Theorem C09_reinversion PP (m : Mixture ROps) T xs Tp pp Ps pfs :
+  Forall wf_pos Ps -> Forall pos2 pfs -> length Ps = length xs -> mapM (fun x => PP T x NRTL) xs = Ok pfs ->
+  exists c, mk_curve ROps PP m (Build_CurveIn ROps T xs None Tp pp (Some Ps)) = Ok c /\
+    mk_curve ROps PP m (Build_CurveIn ROps T xs (Some (cv_J c)) None None None)
+    = Ok (Build_Curve ROps T xs (cv_J c) None None Ps).
+Proof. exact (curve_reinversion PP m T xs Tp pp Ps pfs). Qed.
+
 Print Assumptions C09_vacuum.
 Print Assumptions C09_permeate_pressure_asis.
 Print Assumptions C09_units.
+
+Print Assumptions C09_reinversion.
